@@ -17,6 +17,9 @@ def check(run):
         run.rule(r, N.RULES[r])
     for cfg in configs(run):
         F = run.facts(cfg)
+        # helpers this property stands on (rule sets owned by other properties, see common.deps)
+        from common import deps as _deps
+        _deps(run, F, 'isnone', 'casts')
         n = A.check_gates(run, F)
         run.floor('AGG.gate', 'gated aggregations', n, 9)
         ns = A.check_sub(run, F)
@@ -35,6 +38,9 @@ def check(run):
         run.rule('CAS.floor', 'the degenerate (variance at the floor) branch of skewness / kurtosis yields 0 and the bias adjustment leaves it 0: the adjustment either maps 0 to 0 or its guard excludes 0')
         n = casrules.check_aggs(run, run.facts('base'))
         run.floor('CAS.form', 'skewness / kurtosis closed forms', n, 2)
+    # every container the generic code can be instantiated with hands out its elements in logical order
+    from common import dep_backends as _dep_backends
+    _dep_backends(run)
     return run.finish(
         'other',
         'Structure of the aggregation definitions: the fold helpers skip exactly the nulls and '
